@@ -60,6 +60,17 @@ class Gen:
         return ("tern", e["idx"], sid, self.tree(d - 1, pool), self.tree(d - 1, pool), self.tree(d - 1, pool))
 
 
+def first_word(T, a):
+    """the first token of the rendering of a parenthesised tree"""
+    if a[0] == "paren":
+        return "("
+    if a[0] == "leaf":
+        return "<atom>"
+    if a[0] == "pre":
+        return T["spell"][a[2]]["words"][0]
+    return first_word(T, a[3])
+
+
 def paren(T, t, need, extra_rate, rnd):
     """insert PParen where need(parent kind, parent entry, slot, child entry) says so, plus redundant ones at random"""
     if t[0] == "leaf":
@@ -69,7 +80,7 @@ def paren(T, t, need, extra_rate, rnd):
     kids = []
     for s, c in enumerate(t[3:]):
         pc = paren(T, c, need, extra_rate, rnd)
-        glue = (c[0] == "pre" and T["spell"][c[2]]["words"] == ["not"] and T["spell"][sid]["words"][-1] == "is" and s == len(t) - 4)
+        glue = (first_word(T, pc) == "not" and T["spell"][sid]["words"][-1] == "is" and s == len(t) - 4)
         # `is` directly followed by a prefix `not` would be read as the operator `is not` (longest match): never generated
         if c[0] != "leaf" and pc[0] != "paren" and (need(kind, e, s, c[1]) or glue):
             pc = ("paren", pc)
@@ -354,6 +365,28 @@ def run(ctx):
                 ctx.violation("input", dict(sql="select " + m["sql"], returned=m["impl"], sqlite_text=txt, sqlite_tree=full, values_text=v1, values_tree=v2,
                                             requires="evaluating the returned tree gives what SQLite computes for the text on every row"))
     ctx.extra["sqlite_value_vectors_compared"] = sql_checked
+    # operands are kept as written: every operator spelling with literal operands of several kinds (wide integers, decimals, strings) in both slots
+    big = [9007199254740993, 1234567890123456789, 4611686018427387905, 18446744073709551617, 7]
+    lits = [(str(b), b) for b in big] + [("2.5", 2.5), ("'it''s'", {"literal": "it's"}), ("x9", "x9")]
+    for sp in T["spell"]:
+        e = T["entries"][sp["entry"]]
+        if e["kind"] != "bin" or not sp["name"] or sp["words"][0].startswith("#"):
+            continue
+        opx = " ".join(sp["words"])
+        for k, (txt, val) in enumerate(lits):
+            if (k + sp["entry"] + ctx.seed) % 3 and not ctx.thorough:
+                continue
+            for sql, want in (("x1 %s %s" % (opx, txt), ["x1", val]), ("%s %s x1" % (txt, opx), [val, "x1"])):
+                st, v = impl.outcome(impl.M.parse, "select " + sql)
+                ctx.count(1, ("operand", sql))
+                if st != "ok":
+                    continue
+                got = v["select"]["value"]
+                if not (isinstance(got, dict) and len(got) == 1):
+                    continue
+                (nm, args), = got.items()
+                if isinstance(args, list) and len(args) == 2 and canon(args) != canon(want) and not ({"literal": "it's"} in want and nm in ("like", "not_like", "ilike", "not_ilike", "rlike", "not_rlike", "regexp", "not_regexp", "similar_to", "not_similar_to")):
+                    ctx.violation("input", dict(sql="select " + sql, returned=short(v, 300), requires="operands %r, in this order, exactly as written" % (want,)))
     # new table triples: concretise
     for (P, s, C) in [t for t in bad if (lab(t[0]), t[1], lab(t[2])) in new][:20]:
         eP, eC = T["entries"][P], T["entries"][C]
